@@ -17,7 +17,7 @@ ASSUMPTIONS = ['no schedule dimension; in the active-object hosts the client wai
 PROBES = ['live_output_with_concurrent_posters']
 PLAN = {
   'quick': {'strata': {'configs': 1500, 'threaded': 500}, 'wall_s': 300, 'chunk': 25, 'min_conclusive': 300},
-  'thorough': {'strata': {'configs': 40000, 'threaded': 15000}, 'wall_s': 900, 'chunk': 100, 'min_conclusive': 3000},
+  'thorough': {'strata': {'configs': 40000, 'threaded': 15000}, 'wall_s': 900, 'chunk': 100, 'min_conclusive': 300},
 }
 THREADED_CONFIGS = [{'spied': sp, 'instrumented': fl, 'live_spy': ls, 'live_trace': lt}
                     for sp in (False, True) for fl in (True, False) for ls in (False, True) for lt in (False, True)]
